@@ -1,7 +1,7 @@
 NOTES = ("All checks: ./check <id> --tier quick|thorough. Exit 0 held / 1 VIOLATION / 2 machinery failure. "
          "Specifications in spec/, harness in harness/, per-property drivers in checks/. See DESIGN.md. "
          "Extensions of the specification beyond the listed properties (not property checks, same CLI): ./check X01 (date helpers vs Calendar.tla), "
-         "X02 (sequence_true, lag, ismisscens, islinear step machine), X03 (compute_aggindex / dayofyear), X04 (catchment set algebra), X05 (Grid.slice on the exact lattice, slope along the flow direction), X06 (acf and goue in exact rational arithmetic).")
+         "X02 (sequence_true, lag, ismisscens, islinear step machine), X03 (compute_aggindex / dayofyear), X04 (catchment set algebra), X05 (Grid.slice on the exact lattice, slope along the flow direction), X06 (acf, goue and water_year_end in exact arithmetic).")
 
 TLA = "TLA+ spec + TLC model check; TLC-generated behaviours replayed into the code; recorded calls validated by a TLC trace spec"
 
